@@ -226,9 +226,13 @@ def build_driver(name, timeout=600):
     os.makedirs(TARGET, exist_ok=True)
     up = name.upper()
     models = sorted(glob.glob(os.path.join(COQ, "model", "*.v")))
-    srcs = models + [os.path.join(COQ, "gen", "Consts.v"),
-                     os.path.join(COQ, "extract", "driver.ml")]
-    srcs = [s for s in srcs if os.path.exists(s)]
+    coq_project()   # makes sure coqdep's dependency file exists
+    closure = coq_deps("model/Run%s.v" % up)
+    if closure and len(closure) > 1:
+        srcs = [os.path.join(COQ, f) for f in closure]
+    else:
+        srcs = models + [os.path.join(COQ, "gen", "Consts.v")]
+    srcs = [s for s in srcs if os.path.exists(s)] + [os.path.join(COQ, "extract", "driver.ml")]
     h = file_hash(srcs)
     stamp = os.path.join(TARGET, "model_%s.hash" % name)
     exe = os.path.join(TARGET, "model_%s" % name)
